@@ -190,20 +190,48 @@ class Check:
         return out, o
 
     # ---------------------------------------------------------------- coq
-    def coq_make(self, targets, timeout=3000, clean=False):
-        """(re)build .vo targets (paths relative to coq/) under a lock; full .vo, never -vos"""
-        with Lock("coqmake"):
-            if not os.path.exists(os.path.join(COQ, "Makefile.coq")) or \
-               os.path.getmtime(os.path.join(COQ, "Makefile.coq")) < os.path.getmtime(os.path.join(COQ, "_CoqProject")):
-                rc, o = sh("coq_makefile -f _CoqProject -o Makefile.coq", cwd=COQ)
+    def coq_make(self, targets, timeout=3000, clean=False, dirs=None):
+        """(re)build .vo targets (paths relative to coq/); full .vo, never -vos.
+        Each property has its own makefile (Makefile.<pid>) generated from the .v files of
+        Common/, gen/ and the property's directories `dirs`, so that several checks (or several
+        people editing different properties) can build at the same time. Common/ and gen/ are
+        built under a global lock, property directories under a per-directory lock."""
+        dirs = dirs or [self.pid]
+        def listv(d):
+            root = os.path.join(COQ, d)
+            if not os.path.isdir(root):
+                return []
+            return sorted(os.path.join(d, f) for f in os.listdir(root) if f.endswith(".v"))
+        common = listv("Common")
+        files = list(common)
+        for d in dirs:
+            files += listv(d)
+        proj = os.path.join(COQ, "_CoqProject." + self.pid)
+        content = "-Q . V\n" + "\n".join(files) + "\n"
+        mk = "Makefile." + self.pid
+        with Lock("coq-" + self.pid):
+            if not os.path.exists(proj) or open(proj).read() != content or not os.path.exists(os.path.join(COQ, mk)):
+                open(proj, "w").write(content)
+                rc, o = sh(["coq_makefile", "-f", "_CoqProject." + self.pid, "-o", mk], cwd=COQ)
                 if rc != 0:
                     return False, o
             if clean:
-                for t in targets:
-                    d = os.path.join(COQ, os.path.dirname(t))
-                    sh("rm -f *.vo *.vok *.vos *.glob .*.aux", cwd=d)
-            rc, o = sh(["make", "-f", "Makefile.coq", "-j%d" % NCPU] + list(targets),
-                       cwd=COQ, timeout=timeout)
+                for d in dirs:
+                    sh("rm -f *.vo *.vok *.vos *.glob .*.aux", cwd=os.path.join(COQ, d))
+            with Lock("coq-common"):
+                ctargets = [f[:-2] + ".vo" for f in common]
+                if ctargets:
+                    rc, o = sh(["make", "-f", mk, "-j%d" % NCPU] + ctargets, cwd=COQ, timeout=timeout)
+                    if rc != 0:
+                        return False, o
+            locks = [Lock("coq-dir-" + d.replace("/", "_")) for d in sorted(dirs)]
+            for l in locks:
+                l.__enter__()
+            try:
+                rc, o = sh(["make", "-f", mk, "-j%d" % NCPU] + list(targets), cwd=COQ, timeout=timeout)
+            finally:
+                for l in reversed(locks):
+                    l.__exit__()
             return rc == 0, o
 
     def coqc(self, vfile, timeout=1200, cwd=None):
@@ -226,13 +254,13 @@ class Check:
                         bad.append("%s: %s" % (os.path.relpath(os.path.join(dp, f), COQ), m.group(0)))
         return bad
 
-    def prove(self, pdir=None, extra_targets=(), extra_dirs=()):
+    def prove(self, pdir=None, extra_targets=(), extra_dirs=(), deps=()):
         """Step 3. Build the cone of coq/<pid>/, then re-check Properties.v and Examples.v
         unconditionally and parse theorem names + Print Assumptions. Returns True when every
         obligation was discharged."""
         pdir = pdir or self.pid
         t0 = time.time()
-        bad = self.scan_forbidden([pdir, "Common", "gen"] + list(extra_dirs))
+        bad = self.scan_forbidden([pdir, "Common"] + list(extra_dirs) + list(deps))
         if bad:
             self.log("forbidden constructs:", bad)
             self.broken.append("forbidden-construct:" + ";".join(bad[:5]))
@@ -244,8 +272,8 @@ class Check:
                 p = os.path.join(COQ, pdir, f + ext)
                 if os.path.exists(p):
                     os.remove(p)
-        ok, out = self.coq_make(targets, clean=(self.tier == "thorough"))
-        self.checker_cmds.append("make -f Makefile.coq -j%d %s (coqc 8.16.1, full .vo)" % (NCPU, " ".join(targets)))
+        ok, out = self.coq_make(targets, clean=(self.tier == "thorough"), dirs=[pdir] + list(deps) + list(extra_dirs))
+        self.checker_cmds.append("make -f Makefile.<pid> -j%d %s (coqc 8.16.1, full .vo)" % (NCPU, " ".join(targets)))
         props_src = strip_coq_comments(open(os.path.join(COQ, pdir, "Properties.v"), encoding="utf-8").read())
         names = re.findall(r"^\s*(?:Theorem|Corollary)\s+([A-Za-z0-9_']+)", props_src, re.M)
         ex_names = []
